@@ -770,6 +770,25 @@ def neutral_segment_times(spec):
     return s
 
 
+def neutral_prepend_individual(spec):
+    """One extra individual (a single observation record at time 0) in front of the file: row label 0 then belongs to
+    nobody else."""
+    s = _copy_spec(spec)
+    v = View(s)
+    row = []
+    for c in s["columns"]:
+        if c["type"] == "id" and not c["drop"]:
+            x = max(v.ids()) + 1
+        elif c["name"] == "REC":
+            x = 1000.0
+        else:
+            x = 0
+        row.append(int(x) if c["dtype"] == "int64" else float(x))
+    s["rows"].insert(0, row)
+    s["kinds"].insert(0, "obs")
+    return s
+
+
 def neutral_evid4(spec):
     """Reset-and-dose records (EVID 4) become plain dose records (EVID 1)."""
     s = _copy_spec(spec)
